@@ -8,6 +8,7 @@ import (
 	"go/types"
 	"regexp"
 	"sort"
+	"strconv"
 	"strings"
 
 	"golang.org/x/tools/go/packages"
@@ -29,7 +30,10 @@ func init() {
 		Run:  ruleE12})
 }
 
-func nows(s string) string { return strings.Join(strings.Fields(s), "") }
+// nows drops white space and the suffix the helper expansion gives to the identifiers of an expanded helper (x_i12 reads x).
+func nows(s string) string { return expandSfx.ReplaceAllString(strings.Join(strings.Fields(s), ""), "") }
+
+var expandSfx = regexp.MustCompile(`_i[0-9]+\b`)
 
 // ifsIn returns all if statements (including else-if) of a function with their normalised condition.
 type ifInfo struct {
@@ -831,6 +835,191 @@ func rulePanicInventory(c *Ctx) []Ob {
 
 // ---------------------------------------------------------------- E12
 
+// tagLookupShape reads lookupStructTag off its SSA form: the order of the tag.Lookup calls (the second only where the first
+// found nothing), and for every returned slice where it comes from: strings.Split of the frugal tag value as it is, of the
+// thrift tag value without its first element, and in both cases with every element replaced by its strings.TrimSpace -
+// through the trimming helper or through a range loop over the returned slice that stores the trimmed element back.
+func tagLookupShape(c *Ctx, fn *ssa.Function) (order []string, dropOne, trimmed bool, why string) {
+	lookups := map[ssa.Value]string{} // the Lookup call -> tag name
+	var calls []*ssa.Call
+	for _, b := range fn.Blocks {
+		for _, ins := range b.Instrs {
+			call, ok := ins.(*ssa.Call)
+			if !ok || call.Call.StaticCallee() == nil || call.Call.StaticCallee().Name() != "Lookup" || len(call.Call.Args) != 2 {
+				continue
+			}
+			if k, ok := call.Call.Args[1].(*ssa.Const); ok && k.Value != nil && k.Value.Kind() == constant.String {
+				lookups[call] = constant.StringVal(k.Value)
+				calls = append(calls, call)
+			}
+		}
+	}
+	sort.Slice(calls, func(i, j int) bool { return calls[i].Pos() < calls[j].Pos() })
+	for _, cl := range calls {
+		order = append(order, lookups[cl])
+	}
+	if len(calls) == 2 {
+		// the second lookup runs only where the first one's ok is false
+		first, second := calls[0], calls[1]
+		okFalse := false
+		for _, cd := range domConds(second.Block()) {
+			if ex, ok := cd.V.(*ssa.Extract); ok && ex.Tuple == ssa.Value(first) && ex.Index == 1 && !cd.Truth {
+				okFalse = true
+			}
+		}
+		if !okFalse {
+			order = append(order, "(second lookup not conditioned on the first finding nothing)")
+		}
+	}
+	// trimming loops: for i, s := range X { X[i] = strings.TrimSpace(s) }
+	trimLoopOver := map[ssa.Value]*ssa.BasicBlock{}
+	trimHelper := func(f *ssa.Function) bool { return f != nil && f.Name() == "trimSpaces" }
+	for _, b := range fn.Blocks {
+		for _, ins := range b.Instrs {
+			st, ok := ins.(*ssa.Store)
+			if !ok {
+				continue
+			}
+			ia, ok := st.Addr.(*ssa.IndexAddr)
+			if !ok {
+				continue
+			}
+			tc, ok := st.Val.(*ssa.Call)
+			if !ok || tc.Call.StaticCallee() == nil || tc.Call.StaticCallee().String() != "strings.TrimSpace" {
+				continue
+			}
+			// the trimmed value is the element at the same index of the same slice
+			ld, ok := tc.Call.Args[0].(*ssa.UnOp)
+			if !ok || ld.Op != token.MUL {
+				continue
+			}
+			ia2, ok := ld.X.(*ssa.IndexAddr)
+			if !ok || ia2.X != ia.X || ia2.Index != ia.Index {
+				continue
+			}
+			var idx *ssa.Phi
+			switch iv := ia.Index.(type) {
+			case *ssa.Phi:
+				idx = iv
+			case *ssa.BinOp: // the range index as go/ssa writes it: phi + 1
+				if one, ok := constInt(iv.Y); ok && one == 1 && iv.Op == token.ADD {
+					idx, _ = iv.X.(*ssa.Phi)
+				}
+			}
+			if idx == nil || idx.Comment != "rangeindex" {
+				continue
+			}
+			trimLoopOver[ia.X] = idx.Block()
+		}
+	}
+	type origin struct {
+		tag      string
+		low      int64 // -1: not sliced
+		trimmed  bool
+		resolved bool
+	}
+	var origins []origin
+	var walk func(v ssa.Value, o origin, retBlk *ssa.BasicBlock, depth int)
+	seen := map[ssa.Value]bool{}
+	walk = func(v ssa.Value, o origin, retBlk *ssa.BasicBlock, depth int) {
+		if depth > 10 {
+			origins = append(origins, o)
+			return
+		}
+		if hdr, ok := trimLoopOver[v]; ok && hdr.Dominates(retBlk) && hdr != retBlk {
+			o.trimmed = true
+		}
+		switch x := v.(type) {
+		case *ssa.Phi:
+			if seen[x] {
+				return
+			}
+			seen[x] = true
+			for _, e := range x.Edges {
+				walk(e, o, retBlk, depth+1)
+			}
+		case *ssa.Slice:
+			lo := int64(0)
+			if x.Low != nil {
+				k, ok := constInt(x.Low)
+				if !ok {
+					k = -2
+				}
+				lo = k
+			}
+			if x.High != nil || x.Max != nil || o.low != -1 {
+				lo = -2
+			}
+			o.low = lo
+			walk(x.X, o, retBlk, depth+1)
+		case *ssa.Call:
+			f := x.Call.StaticCallee()
+			switch {
+			case trimHelper(f) && len(x.Call.Args) == 1:
+				o.trimmed = true
+				walk(x.Call.Args[0], o, retBlk, depth+1)
+			case f != nil && f.String() == "strings.Split" && len(x.Call.Args) == 2:
+				if ex, ok := x.Call.Args[0].(*ssa.Extract); ok && ex.Index == 0 {
+					o.tag = lookups[ex.Tuple]
+				}
+				if sep, ok := x.Call.Args[1].(*ssa.Const); !ok || sep.Value == nil || sep.Value.Kind() != constant.String || constant.StringVal(sep.Value) != "," {
+					o.tag = ""
+				}
+				o.resolved = true
+				origins = append(origins, o)
+			default:
+				origins = append(origins, o)
+			}
+		case *ssa.Const:
+			if x.IsNil() {
+				return // the not-found return
+			}
+			origins = append(origins, o)
+		default:
+			origins = append(origins, o)
+		}
+	}
+	for _, b := range fn.Blocks {
+		ret, ok := b.Instrs[len(b.Instrs)-1].(*ssa.Return)
+		if !ok || len(ret.Results) != 2 {
+			continue
+		}
+		if k, ok := ret.Results[1].(*ssa.Const); ok && k.Value != nil && k.Value.Kind() == constant.Bool && !constant.BoolVal(k.Value) {
+			continue
+		}
+		seen = map[ssa.Value]bool{}
+		walk(ret.Results[0], origin{low: -1}, b, 0)
+	}
+	haveF, haveT := false, false
+	dropOne, trimmed = true, true
+	for _, o := range origins {
+		switch {
+		case !o.resolved || o.tag == "":
+			dropOne, trimmed = false, false
+			why = " (a returned slice is not strings.Split(<tag value>, \",\"))"
+		case o.tag == "frugal":
+			haveF = true
+			if o.low > 0 || o.low == -2 {
+				dropOne = false
+				why = " (the frugal tag loses elements)"
+			}
+		case o.tag == "thrift":
+			haveT = true
+			if o.low != 1 {
+				dropOne = false
+			}
+		}
+		if !o.trimmed {
+			trimmed = false
+		}
+	}
+	if !haveF || !haveT {
+		dropOne, trimmed = false, false
+		why = " (a tag form is never returned)"
+	}
+	return
+}
+
 func parentMap(root ast.Node) map[ast.Node]ast.Node {
 	pm := map[ast.Node]ast.Node{}
 	var stack []ast.Node
@@ -851,28 +1040,11 @@ func parentMap(root ast.Node) map[ast.Node]ast.Node {
 func ruleE12(c *Ctx) []Ob {
 	s := newSink(c, "E12.tag-frontend")
 	// lookupStructTag
-	if fd, _ := c.funcDecl(pkgDefs, "lookupStructTag"); fd != nil {
-		var order []string
-		dropOne, trims := false, 0
-		ast.Inspect(fd, func(n ast.Node) bool {
-			switch x := n.(type) {
-			case *ast.CallExpr:
-				f := nows(types.ExprString(x.Fun))
-				if f == "tag.Lookup" && len(x.Args) == 1 {
-					order = append(order, nows(types.ExprString(x.Args[0])))
-				}
-				if f == "trimSpaces" {
-					trims++
-					if len(x.Args) == 1 && nows(types.ExprString(x.Args[0])) == "ss[1:]" {
-						dropOne = true
-					}
-				}
-			}
-			return true
-		})
-		s.check(len(order) == 2 && order[0] == `"frugal"` && order[1] == `"thrift"`, "tag-order", c.Pos(fd.Pos()), "frugal tag first, then thrift", "tag lookup order is "+strings.Join(order, ",")+": the frugal tag must take precedence")
-		s.check(dropOne, "thrift-drops-name", c.Pos(fd.Pos()), "thrift tag: exactly the field name is dropped (ss[1:])", "the thrift tag path does not drop exactly its first element")
-		s.check(trims == 2, "trim-both", c.Pos(fd.Pos()), "both tag forms are trimmed", "not both tag paths go through trimSpaces")
+	if fn := c.SSA[pkgDefs].Func("lookupStructTag"); fn != nil {
+		order, dropOne, trimmed, why := tagLookupShape(c, fn)
+		s.check(len(order) == 2 && order[0] == "frugal" && order[1] == "thrift", "tag-order", c.Pos(fn.Pos()), "frugal tag first, then thrift", "tag lookup order is "+strings.Join(order, ",")+": the frugal tag must take precedence")
+		s.check(dropOne, "thrift-drops-name", c.Pos(fn.Pos()), "thrift tag: exactly the field name is dropped (ss[1:]); frugal tag: nothing is dropped", "the thrift tag path does not drop exactly its first element"+why)
+		s.check(trimmed, "trim-both", c.Pos(fn.Pos()), "both tag forms are trimmed", "not both tag paths go through trimSpaces"+why)
 	} else {
 		s.bad("lookupStructTag", "-", "not found")
 	}
@@ -1350,4 +1522,469 @@ func reachesNamed(f *ssa.Function, name string) bool {
 		}
 	}
 	return false
+}
+
+// ---------------------------------------------------------------- argument kinds of the entry points, cache key strings
+
+func init() {
+	// createStructDesc accepts a struct or a pointer to a struct and nothing else: walked once per Go kind of the argument
+	// and, for a pointer, once per kind of what it points to
+	registerExtra("R.refusals", func(c *Ctx, s *obSink) {
+		fn := c.SSA[pkgReflect].Func("createStructDesc")
+		if fn == nil || len(fn.Params) != 1 {
+			s.bad("createStructDesc:arg-kind", "-", "createStructDesc(rv reflect.Value) not found")
+			return
+		}
+		rp := c.ByPath["reflect"]
+		if rp == nil {
+			s.bad("createStructDesc:arg-kind", "-", "package reflect not loaded")
+			return
+		}
+		kindVal := func(n string) int64 {
+			if o, ok := rp.Types.Scope().Lookup(n).(*types.Const); ok {
+				v, _ := constant.Int64Val(o.Val())
+				return v
+			}
+			return -1
+		}
+		allKinds := []string{"Bool", "Int", "Int8", "Int16", "Int32", "Int64", "Uint", "Uint8", "Uint16", "Uint32", "Uint64", "Uintptr",
+			"Float32", "Float64", "Complex64", "Complex128", "Array", "Chan", "Func", "Interface", "Map", "Pointer", "Slice", "String", "Struct", "UnsafePointer"}
+		// the values whose kind is asked: rv itself, rv.Type(), and the Elem() of that type
+		var isValid ssa.Value
+		outer := map[ssa.Value]bool{fn.Params[0]: true}
+		elem := map[ssa.Value]bool{}
+		for _, b := range fn.Blocks {
+			for _, ins := range b.Instrs {
+				call, ok := ins.(*ssa.Call)
+				if !ok {
+					continue
+				}
+				if f := call.Call.StaticCallee(); f != nil && len(call.Call.Args) == 1 && unspillParam(call.Call.Args[0]) == ssa.Value(fn.Params[0]) {
+					switch f.String() {
+					case "(reflect.Value).IsValid":
+						isValid = call
+					case "(reflect.Value).Type":
+						outer[call] = true
+					}
+				}
+				if call.Call.IsInvoke() && call.Call.Method.Name() == "Elem" && outer[call.Call.Value] {
+					elem[call] = true
+				}
+			}
+		}
+		walk := func(ko, ke int64) string {
+			w := &kindWalker{c: c, fn: fn, param: fn.Params[0], kind: ko, pkg: pkgReflect, env: map[ssa.Value]kval{}}
+			if isValid != nil {
+				w.env[isValid] = kval{known: true, i: 1}
+			}
+			w.kindOf = func(v ssa.Value) (int64, bool) {
+				v = unspillParam(v)
+				if ph, ok := v.(*ssa.Phi); ok {
+					if kv, ok := w.env[ph]; ok && kv.known {
+						return kv.i, true
+					}
+					// a type variable merged from the argument's type and its element type: which one is decided by the walk
+					for _, e := range ph.Edges {
+						if outer[e] || elem[e] {
+							continue
+						}
+						return 0, false
+					}
+					return 0, false
+				}
+				switch {
+				case outer[v]:
+					return ko, true
+				case elem[v]:
+					return ke, true
+				}
+				return 0, false
+			}
+			end, _, _ := w.run("-")
+			return end
+		}
+		n := 0
+		for _, kn := range allKinds {
+			ko := kindVal(kn)
+			if ko < 0 {
+				continue
+			}
+			switch kn {
+			case "Struct":
+				end := walk(ko, 0)
+				n++
+				s.check(end != "error" && end != "panic", "createStructDesc:arg-kind:Struct", c.Pos(fn.Pos()), "a struct value is accepted", "a struct argument is refused ("+end+")")
+			case "Pointer":
+				for _, en := range append([]string{"Invalid"}, allKinds...) {
+					ke := kindVal(en)
+					end := walk(ko, ke)
+					n++
+					if en == "Struct" {
+						s.check(end != "error" && end != "panic", "createStructDesc:arg-kind:Pointer/Struct", c.Pos(fn.Pos()), "a pointer to a struct is accepted", "a pointer to a struct is refused ("+end+")")
+					} else {
+						s.check(end == "error", "createStructDesc:arg-kind:Pointer/"+en, c.Pos(fn.Pos()), "a pointer to "+en+" is refused with an error", "an argument of kind pointer to "+en+" is not refused with an error (the walk ends with: "+end+"): its memory would be read as a struct")
+					}
+				}
+			default:
+				end := walk(ko, kindVal("Struct"))
+				n++
+				s.check(end == "error", "createStructDesc:arg-kind:"+kn, c.Pos(fn.Pos()), "an argument of kind "+kn+" is refused with an error", "an argument of kind "+kn+" is not refused with an error (the walk ends with: "+end+"): its memory would be read as a struct")
+			}
+		}
+		if n == 0 {
+			s.bad("createStructDesc:arg-kind", c.Pos(fn.Pos()), "no argument kind could be walked")
+		}
+	})
+	// the descriptor cache key uses (*Type).String(): two annotations that mean different things for the same Go type must not
+	// render alike - every tag has its own rendering
+	registerExtra("E12.tag-frontend", func(c *Ctx, s *obSink) {
+		fn := c.Func(pkgDefs, "(*Type).String")
+		if fn == nil {
+			s.bad("cache-key:string", "-", "(*defs.Type).String not found")
+			return
+		}
+		tags := c.defsTags()
+		name := map[int64]string{}
+		for n, v := range tags {
+			name[v] = n
+		}
+		shape := map[int64]string{}
+		pos := map[int64]string{}
+		for _, b := range fn.Blocks {
+			ret, ok := b.Instrs[len(b.Instrs)-1].(*ssa.Return)
+			if !ok || len(ret.Results) != 1 {
+				continue
+			}
+			cs, subj := caseSet(b, ".T")
+			if len(cs) == 0 || !strings.HasSuffix(subj, ".T") {
+				continue
+			}
+			sh := "?" + c.InstrPos(ret)
+			switch x := ret.Results[0].(type) {
+			case *ssa.Const:
+				if x.Value != nil && x.Value.Kind() == constant.String {
+					sh = "text " + strconv.Quote(constant.StringVal(x.Value))
+				}
+			case *ssa.Call:
+				if f := x.Call.StaticCallee(); f != nil && f.String() == "fmt.Sprintf" && len(x.Call.Args) > 0 {
+					if k, ok := x.Call.Args[0].(*ssa.Const); ok && k.Value != nil && k.Value.Kind() == constant.String {
+						sh = "format " + strconv.Quote(constant.StringVal(k.Value))
+					}
+				} else if x.Call.IsInvoke() && x.Call.Method.Name() == "Name" {
+					sh = "name of the Go type"
+				}
+			case *ssa.BinOp:
+				if k, ok := x.X.(*ssa.Const); ok && x.Op == token.ADD && k.Value != nil && k.Value.Kind() == constant.String {
+					sh = "prefix " + strconv.Quote(constant.StringVal(k.Value))
+				}
+			}
+			for _, v := range cs {
+				shape[v] = sh
+				pos[v] = c.InstrPos(ret)
+			}
+		}
+		var names []string
+		for n := range tags {
+			names = append(names, n)
+		}
+		sort.Strings(names)
+		for _, n := range names {
+			v := tags[n]
+			sh, ok := shape[v]
+			if !ok {
+				s.bad("cache-key:string:"+n, c.Pos(fn.Pos()), "tag "+n+" has no rendering of its own in (*Type).String (it falls into the default): the descriptor cache key does not tell it apart")
+				continue
+			}
+			clash := ""
+			for _, m := range names {
+				if m != n && shape[tags[m]] == sh {
+					clash = m
+				}
+			}
+			s.check(clash == "" && !strings.HasPrefix(sh, "?"), "cache-key:string:"+n, pos[v], n+" renders as "+sh+", unlike every other tag", "tag "+n+" renders as "+sh+", the same as "+clash+": the descriptor cache key {String(), Go type} no longer separates them, and the same Go type annotated both ways shares one descriptor (whichever is built first)")
+		}
+	})
+}
+
+// unspillParam: a value read back from the stack slot a by-value parameter was spilled to.
+func unspillParam(v ssa.Value) ssa.Value {
+	if u, ok := v.(*ssa.UnOp); ok && u.Op == token.MUL {
+		if al, ok := u.X.(*ssa.Alloc); ok {
+			var val ssa.Value
+			n := 0
+			for _, r := range referrers(al) {
+				if st, ok := r.(*ssa.Store); ok && st.Addr == ssa.Value(al) {
+					val = st.Val
+					n++
+				}
+			}
+			if n == 1 {
+				return val
+			}
+		}
+	}
+	return v
+}
+
+// ---------------------------------------------------------------- a struct annotation must name the Go type
+
+// doMatchStruct decides whether the identifier written in an annotation names the Go struct type of the field. Its verdict on
+// every success return must be: the names are equal, or the Go type is an anonymous struct (no name, kind Struct). The
+// function is walked from its entry under each of the eight assignments of these three comparisons; branches that depend on
+// anything else (tokens, errors) are followed both ways.
+func init() {
+	f := func(c *Ctx, s *obSink) {
+		fn := c.SSA[pkgDefs].Func("doMatchStruct")
+		if fn == nil {
+			s.bad("struct-name-match", "-", "doMatchStruct not found")
+			return
+		}
+		structKind := int64(25)
+		if rp := c.ByPath["reflect"]; rp != nil {
+			if o, ok := rp.Types.Scope().Lookup("Struct").(*types.Const); ok {
+				if v, ok := constant.Int64Val(o.Val()); ok {
+					structKind = v
+				}
+			}
+		}
+		isNameCall := func(v ssa.Value) bool {
+			call, ok := v.(*ssa.Call)
+			return ok && call.Call.IsInvoke() && call.Call.Method.Name() == "Name"
+		}
+		isKindCall := func(v ssa.Value) bool {
+			call, ok := v.(*ssa.Call)
+			return ok && call.Call.IsInvoke() && call.Call.Method.Name() == "Kind"
+		}
+		atomOf := func(bo *ssa.BinOp) string {
+			for _, pr := range [][2]ssa.Value{{bo.X, bo.Y}, {bo.Y, bo.X}} {
+				if isNameCall(pr[0]) {
+					if k, ok := pr[1].(*ssa.Const); ok && k.Value != nil && k.Value.Kind() == constant.String && constant.StringVal(k.Value) == "" {
+						return "N"
+					}
+					if u, ok := pr[1].(*ssa.UnOp); ok && u.Op == token.MUL {
+						if _, isParam := u.X.(*ssa.Parameter); isParam {
+							return "E"
+						}
+					}
+				}
+				if isKindCall(pr[0]) {
+					if k, ok := constInt(pr[1]); ok && k == structKind {
+						return "K"
+					}
+				}
+			}
+			return ""
+		}
+		type state struct {
+			b, prev *ssa.BasicBlock
+			env     map[ssa.Value]tri
+			steps   int
+		}
+		var bad []string
+		nRet := 0
+		for mask := 0; mask < 8; mask++ {
+			as := map[string]bool{"N": mask&1 != 0, "K": mask&2 != 0, "E": mask&4 != 0}
+			want := as["E"] || as["N"] && as["K"]
+			var eval func(v ssa.Value, env map[ssa.Value]tri, d int) tri
+			eval = func(v ssa.Value, env map[ssa.Value]tri, d int) tri {
+				if d > 10 {
+					return triU
+				}
+				if t, ok := env[v]; ok {
+					return t
+				}
+				switch x := v.(type) {
+				case *ssa.Const:
+					if x.Value != nil && x.Value.Kind() == constant.Bool {
+						return triOf(constant.BoolVal(x.Value))
+					}
+				case *ssa.UnOp:
+					if x.Op == token.NOT {
+						return eval(x.X, env, d+1).not()
+					}
+				case *ssa.BinOp:
+					if x.Op == token.EQL || x.Op == token.NEQ {
+						if a := atomOf(x); a != "" {
+							t := triOf(as[a])
+							if x.Op == token.NEQ {
+								t = t.not()
+							}
+							return t
+						}
+					}
+				}
+				return triU
+			}
+			stack := []state{{b: fn.Blocks[0], env: map[ssa.Value]tri{}}}
+			for len(stack) > 0 && nRet < 4000 {
+				st := stack[len(stack)-1]
+				stack = stack[:len(stack)-1]
+				if st.steps > 200 {
+					continue
+				}
+				if st.prev != nil {
+					idx := -1
+					for i, p := range st.b.Preds {
+						if p == st.prev {
+							idx = i
+						}
+					}
+					for _, ins := range st.b.Instrs {
+						phi, ok := ins.(*ssa.Phi)
+						if !ok {
+							break
+						}
+						if idx >= 0 && isBoolType(phi.Type()) {
+							st.env[phi] = eval(phi.Edges[idx], st.env, 0)
+						}
+					}
+				}
+				switch x := st.b.Instrs[len(st.b.Instrs)-1].(type) {
+				case *ssa.Return:
+					if len(x.Results) != 2 || !isNilConst(unspill(x.Results[1], st.b)) {
+						continue
+					}
+					nRet++
+					got := eval(x.Results[0], st.env, 0)
+					if got != triOf(want) {
+						bad = append(bad, fmt.Sprintf("%s: with name-equal=%v, unnamed=%v, kind-struct=%v the verdict is %s, expected %v", c.InstrPos(x), as["E"], as["N"], as["K"], got, want))
+					}
+				case *ssa.Jump:
+					stack = append(stack, state{b: st.b.Succs[0], prev: st.b, env: st.env, steps: st.steps + 1})
+				case *ssa.If:
+					cv := eval(x.Cond, st.env, 0)
+					for k := 0; k < 2; k++ {
+						if cv == triT && k == 1 || cv == triF && k == 0 {
+							continue
+						}
+						env := map[ssa.Value]tri{}
+						for kk, vv := range st.env {
+							env[kk] = vv
+						}
+						stack = append(stack, state{b: st.b.Succs[k], prev: st.b, env: env, steps: st.steps + 1})
+					}
+				}
+			}
+		}
+		if nRet == 0 {
+			s.bad("struct-name-match", c.Pos(fn.Pos()), "no success return of doMatchStruct could be evaluated")
+			return
+		}
+		s.check(len(bad) == 0, "struct-name-match", c.Pos(fn.Pos()), "an annotation is accepted for a struct exactly when it names the Go type or the Go type is an anonymous struct (8 assignments)", "the struct-name test accepts an annotation that contradicts the Go type (or refuses one that names it): "+strings.Join(dedup(bad), "; "))
+	}
+	registerExtra("R.refusals", f)
+	registerExtra("E12.tag-frontend", f)
+}
+
+// ---------------------------------------------------------------- the tag front end terminates
+
+// Every loop of the tag front end makes progress: it is a range loop, or one of its exit tests reads a loop variable that
+// every trip moves strictly one way (a cursor advanced by a positive constant, a type replaced by its element type). A scanner
+// loop that stopped advancing would hang the first use of a type whose annotation contains the character it skips.
+func init() {
+	registerExtra("E12.tag-frontend", func(c *Ctx, s *obSink) {
+		n := 0
+		for _, fn := range c.ModuleFuncs(pkgDefs) {
+			for _, hdr := range fn.Blocks {
+				if !isLoopHeader(hdr) {
+					continue
+				}
+				n++
+				inLoop := func(x *ssa.BasicBlock) bool { return x == hdr || hdr.Dominates(x) && blockReaches(x, hdr) }
+				key := shortFn(fn) + ":loop-progress"
+				pos := c.InstrPos(hdr.Instrs[len(hdr.Instrs)-1])
+				isRange := false
+				moving := map[ssa.Value]bool{}
+				for _, ins := range hdr.Instrs {
+					if _, ok := ins.(*ssa.Next); ok {
+						isRange = true
+					}
+					phi, ok := ins.(*ssa.Phi)
+					if !ok {
+						continue
+					}
+					if phi.Comment == "rangeindex" {
+						isRange = true
+					}
+					allMove, nBack := true, 0
+					for i, e := range phi.Edges {
+						if !inLoop(hdr.Preds[i]) {
+							continue
+						}
+						nBack++
+						moves := false
+						switch x := e.(type) {
+						case *ssa.BinOp:
+							if k, ok := constInt(x.Y); ok && x.X == ssa.Value(phi) && (x.Op == token.ADD || x.Op == token.SUB) && k > 0 {
+								moves = true
+							}
+						case *ssa.Call:
+							// a type replaced by what it contains: rt = rt.Elem()
+							if x.Call.IsInvoke() && x.Call.Value == ssa.Value(phi) && x.Call.Method.Name() == "Elem" {
+								moves = true
+							}
+						case *ssa.UnOp:
+							// a node replaced by one it links to: p = p.V (the annotation tree is finite)
+							if fa, ok := x.X.(*ssa.FieldAddr); ok && x.Op == token.MUL && fa.X == ssa.Value(phi) {
+								moves = true
+							}
+						}
+						if !moves {
+							allMove = false
+						}
+					}
+					if allMove && nBack > 0 {
+						moving[phi] = true
+					}
+				}
+				if isRange {
+					s.ok(key+":range", pos, "range loop")
+					continue
+				}
+				var dependsOn func(v ssa.Value, d int) bool
+				dependsOn = func(v ssa.Value, d int) bool {
+					if d > 6 {
+						return false
+					}
+					if moving[v] {
+						return true
+					}
+					if ins, ok := v.(ssa.Instruction); ok {
+						if _, isPhi := v.(*ssa.Phi); isPhi {
+							return false
+						}
+						for _, op := range ins.Operands(nil) {
+							if *op != nil && dependsOn(*op, d+1) {
+								return true
+							}
+						}
+					}
+					return false
+				}
+				progress := false
+				for _, x := range fn.Blocks {
+					if !inLoop(x) {
+						continue
+					}
+					iff, ok := x.Instrs[len(x.Instrs)-1].(*ssa.If)
+					if !ok {
+						continue
+					}
+					leaves := false
+					for _, sc := range x.Succs {
+						if !inLoop(sc) {
+							leaves = true
+						}
+					}
+					if leaves && dependsOn(iff.Cond, 0) {
+						progress = true
+					}
+				}
+				s.check(progress, key, pos, "an exit test reads a variable that every trip advances", "no exit test of this loop reads a variable that every trip advances: the scanner can stay in the loop for ever (first use of a type whose annotation reaches it hangs): "+c.srcLine(hdr.Instrs[len(hdr.Instrs)-1].Pos()))
+			}
+		}
+		if n == 0 {
+			s.bad("loop-progress", "-", "no loop found in the tag front end (the scanner loops were expected)")
+		}
+	})
 }
